@@ -20,6 +20,7 @@ import (
 
 	"verif/harness/dbproxy"
 	"verif/harness/httpx"
+	"verif/harness/lockgen"
 	"verif/harness/lnmodel"
 	"verif/harness/rec"
 	"verif/harness/world"
@@ -358,6 +359,68 @@ func (m *mach) fund(amount uint64) bool {
 	r = m.do("POST", "/v1/mint/bolt11", obj(kv{"quote", id}, kv{"outputs", outsJSON(outs2)}))
 	m.checkRefusal(r, "mint_issued_quote", 20002)
 	return true
+}
+
+// opLockRefusals: a genuine proof whose secret is a NUT-10 lock (well-formed or with malformed tags; the mint signs
+// blindly) is presented in a swap without a usable witness. Whatever the mint makes of the lock, the answer is either
+// 200 (the lock is open: no threshold, expired without refund keys, ...) or 400 with the {detail, code} shape and a
+// code of the NUT error table - never an empty object or an internal code.
+func (m *mach) opLockRefusals(t *rapid.T) {
+	kind := rapid.SampledFrom([]string{"P2PK", "HTLC"}).Draw(t, "lock_kind")
+	c := lockgen.GenConfig(t, kind)
+	if rapid.Bool().Draw(t, "lock_malformed") {
+		c.Malformed = rapid.SampledFrom([]string{"bad_n_sigs", "negative_n_sigs", "huge_n_sigs", "bad_key_hex", "unknown_sigflag", "too_many_tags", "short_tag", "bad_locktime", "bad_data_key"}).Draw(t, "lock_malformation")
+	} else {
+		c.Malformed = ""
+	}
+	secret := c.Secret()
+	if len(secret) > 512 {
+		return
+	}
+	_, id, req := m.mintQuote(4)
+	if id == "" {
+		return
+	}
+	m.w.Net.PayExternally(m.w.Net.InvoiceByRequest(req).Hash)
+	out := m.w.BlindSecret(secret, 4, m.w.ActiveID)
+	r := m.do("POST", "/v1/mint/bolt11", obj(kv{"quote", id}, kv{"outputs", outsJSON([]world.Out{out})}))
+	if r.Status != 200 {
+		m.fail("honest_mint_refused", "%d %s", r.Status, r.Body)
+		return
+	}
+	m.applySigs("mint", []world.Out{out}, r.Body)
+	mp := m.w.M.Proofs[secret]
+	if mp == nil {
+		return
+	}
+	p := mp.P
+	fee := m.w.FeeFor(cashu.Proofs{p})
+	if p.Amount <= fee {
+		return
+	}
+	p.Witness = rapid.SampledFrom([]string{"", `{"signatures":[]}`, `{"preimage":"00","signatures":["` + strings.Repeat("00", 64) + `"]}`, "not json", `{"signatures":["zz"]}`}).Draw(t, "lock_witness")
+	outs := m.w.MakeOutputs(world.Split(p.Amount-fee), m.w.ActiveID)
+	r = m.do("POST", "/v1/swap", obj(kv{"inputs", arr(proofJSON(p))}, kv{"outputs", outsJSON(outs)}))
+	what := "swap_locked_input|" + kind
+	if c.Malformed != "" {
+		what += "|" + c.Malformed
+	}
+	m.logf("swap of a %s-locked proof (malformed=%q, witness %q) -> %d %s", kind, c.Malformed, p.Witness, r.Status, trunc(r.Body))
+	if r.Status == 200 {
+		m.checkSignatures(r, "swap", outs)
+		m.w.AcceptInputs("swap", cashu.Proofs{p}, world.Spent, -1)
+		m.applySigs("swap", outs, r.Body)
+		rec.Class("locked_input_accepted_without_witness|" + kind)
+		return
+	}
+	m.checkRefusal(r, what, 0)
+	if o := m.parse(r, what); o != nil && isNum(o["code"]) {
+		code := int(o["code"].(float64))
+		rec.Class(fmt.Sprintf("locked_input_refusal_code=%d", code))
+		if code < 10000 {
+			m.fail(fmt.Sprintf("refusal_code|%s|internal_code=%d", what, code), "body %s", r.Body)
+		}
+	}
 }
 
 func (m *mach) applySigs(op string, outs []world.Out, body []byte) {
@@ -1255,6 +1318,7 @@ func propSurface(t *rapid.T) {
 		"swap":  func(t *rapid.T) { m.t = t; m.opSwap(t) },
 		"swap2": func(t *rapid.T) { m.t = t; m.opSwap(t) },
 		"mintx": func(t *rapid.T) { m.t = t; m.opMintRefusals(t) },
+		"lockx": func(t *rapid.T) { m.t = t; m.opLockRefusals(t) },
 		"melt":  func(t *rapid.T) { m.t = t; m.opMelt(t) },
 		"reads": func(t *rapid.T) { m.t = t; m.opReads(t) },
 		"cache": func(t *rapid.T) { m.t = t; m.opCache(t) },
